@@ -110,6 +110,28 @@ func VerifH_C07_attribute() {
 	vrt.Covered("attribute-parsed")
 }
 
+// the value decoder on a parsed attribute: datatype class (5) / size (7 values) forked, flags and the first dataspace extent arbitrary, the stored
+// data is 0..8 arbitrary bytes: ReadValue returns a value or an error, never panics, never allocates from the extents alone
+func VerifH_C07_attribute_value() {
+	vrt.AllocBudget(1 << 16)
+	classes := []DatatypeClass{DatatypeFixed, DatatypeFloat, DatatypeString, DatatypeVarLen, DatatypeCompound}
+	dt := &DatatypeMessage{Class: classes[vrt.Choice(len(classes))], Version: 1, Size: []uint32{0, 1, 2, 4, 8, 16, 0x80000000}[vrt.Choice(7)], ClassBitField: vrt.U32() & 0xFFFFFF}
+	rank := vrt.Choice(3)
+	ds := &DataspaceMessage{Version: 1, Type: DataspaceSimple}
+	if rank >= 1 {
+		ds.Dimensions = append(ds.Dimensions, vrt.U64()) // any extent
+	}
+	if rank == 2 {
+		ds.Dimensions = append(ds.Dimensions, uint64(1+vrt.Choice(3))) // (a second symbolic factor makes the product a 64x64 multiplication)
+	}
+	if rank == 0 {
+		ds.Type = DataspaceScalar
+	}
+	a := &Attribute{Name: "a", Datatype: dt, Dataspace: ds, Data: verifBuf(8)}
+	_, _ = a.ReadValue()
+	vrt.Covered("attribute-value-decoded")
+}
+
 func VerifH_C07_attrinfo() {
 	data := verifBuf(verifBufN())
 	sb := verifSB()
